@@ -78,7 +78,7 @@ def all_harnesses(mode):
     return hs
 
 
-VSHIM_PRELUDE = ("#[allow(unused_imports)] use crate::vshim::prelude::{String, VToString, VStr, Vec};")
+VSHIM_PRELUDE = ("#[allow(unused_imports)] use crate::vshim::prelude::{String, VToString, VStr, Vec, BVec};")
 
 
 def vshim_rewrite(text):
@@ -86,6 +86,12 @@ def vshim_rewrite(text):
     text = re.sub(r"\bstd::rc::Rc\b", "crate::vshim::rc::Rc", text)
     text = re.sub(r"\bstd::sync::Arc\b", "crate::vshim::sync::Arc", text)
     text = re.sub(r"\bstd::vec::", "crate::vshim::vec::", text)
+    # explicit one-byte tags on every enum: with Rust's niche layout the discriminant of e.g. `State` lives inside a field of its
+    # largest variant and Kani reads it back through byte-level casts, which CBMC cannot constant-propagate (measured: a harness
+    # that had set `state = Interrupt` still explored every arm of `match &self.state`). repr(u8) only fixes the layout.
+    text = re.sub(r"(?m)^(\s*)((?:pub(?:\([a-z]+\))? )?enum \w+\s*\{)", r"\1#[repr(u8)] \2", text)
+    # the recursive AST positions get the heap-indirect vector (an inline array would make the enums infinitely large)
+    text = re.sub(r"\bVec<(Statement|Expression|Variable|ast::Statement|ast::Expression|ast::Variable)>", r"BVec<\1>", text)
     text = re.sub(r"\.to_string\(\)", ".vto_string()", text)
     text = re.sub(r"\.find\(", ".vfind(", text)
     text = re.sub(r'" "\.repeat\(', 'crate::vshim::string::repeat_blank(', text)
